@@ -107,7 +107,8 @@ def grafting_table(ctx, rep, rule: str) -> None:
                 v = A.keyword(call, kw)
                 got[kw] = it.ev(v) if v is not None else None
         except Unsupported as u:
-            raise AnalysisError(f"{rule}: payload of the {name} arm is outside the sub-language: {u}") from u
+            rep.ob(rule, f"grafting:{name}", False, fi.loc(call), f"the (beta2, epsilon, bias-correction) payload for {name} must be a function of the grafting config alone; `{ast.unparse(A.keyword(call, kw))[:110]}` depends on something else ({u})")
+            continue
         w = want[name]
         ok = lc is not None and lc.name == w[0] and (w[1] is None or (got["beta2"] == w[1] and got["epsilon"] == w[2] and got["use_bias_correction"] is w[3]))
         rep.ob(rule, f"grafting:{name}", ok, fi.loc(call), f"{name} -> {lc.name if lc else '?'}(beta2={got['beta2']!r}, epsilon={got['epsilon']!r}, use_bias_correction={got['use_bias_correction']!r}); documented: {w[0]}(beta2={w[1]!r}, epsilon={w[2]!r}, use_bias_correction={w[3]!r})", sample=True)
@@ -197,13 +198,13 @@ def run(ctx, rep) -> None:
     rep.rule("C02.2", "use_grafting_method == (incremented step < start_preconditioning_step and grafting configured)")
     rep.rule("C02.3", "both methods precondition the same input; Shampoo result *= ||graft|| / (||shampoo|| + tiny); grafting accumulator updated whenever grafting is configured")
     rep.rule("C02.4", "no rescaling in warm-up; the phase flag selects which list produces the direction")
-    grafting_table(ctx, rep, "C02.1")
+    rep.attempt("grafting_table", grafting_table, ctx, rep, "C02.1")
     step = ctx.repo.method(DS, "step")
-    schedule_expr_check(ctx, rep, "C02.2", step, "use_grafting_method", lambda s, a, f, env: s < a and next(iter(v for k, v in env.items() if isinstance(v, dict)))["grafting_config"] is not None, "step < start and grafting_config is not None", extra_env={"__graft__": [None, "cfg"]})
-    graft_dataflow(ctx, rep, "C02.3", "C02.4")
+    rep.attempt("schedule_expr_check", schedule_expr_check, ctx, rep, "C02.2", step, "use_grafting_method", lambda s, a, f, env: s < a and next(iter(v for k, v in env.items() if isinstance(v, dict)))["grafting_config"] is not None, "step < start and grafting_config is not None", extra_env={"__graft__": [None, "cfg"]})
+    rep.attempt("graft_dataflow", graft_dataflow, ctx, rep, "C02.3", "C02.4")
     from .arith import adagrad_arithmetic, step_arithmetic
 
     rep.rule("C02.5", "arithmetic of the grafted method: V <- V + G^2 | beta2*V + (1-beta2)*G^2, bias_correction2 = 1 - beta2^step, direction = G / (sqrt(V/bias_correction2) + eps); norm transfer P * ||graft|| / (||P|| + tiny) inside the group step (exact term comparison)")
-    adagrad_arithmetic(ctx, rep, "C02.5")
-    step_arithmetic(ctx, rep, "C02.5")
+    rep.attempt("adagrad_arithmetic", adagrad_arithmetic, ctx, rep, "C02.5")
+    rep.attempt("step_arithmetic", step_arithmetic, ctx, rep, "C02.5")
     rep.assume("equality of trajectories with torch.optim.* is implied only up to floating-point evaluation order: C02.5 proves the formulas equal as rational functions, not the rounding")
